@@ -290,6 +290,8 @@ pub const C06: Spec = Spec {
 // ---------------------------------------------------------------------------------------------------------------------
 // C07
 
+fn c07_cfg(t: Tier) -> GenCfg { let mut c = inj_cfg(t); c.mid_session_changes = true; c }
+
 fn c07_strategy(cfg: GenCfg) -> proptest::strategy::BoxedStrategy<Case> { gen::injected_case_strategy(cfg, InjectKind::Cycle, 1).boxed() }
 
 fn c07_judge(case: &Case, run: &Run, _an: &Analysis, stats: &mut Stats) -> CheckResult {
@@ -351,8 +353,8 @@ fn c07_judge(case: &Case, run: &Run, _an: &Analysis, stats: &mut Stats) -> Check
 pub const C07: Spec = Spec {
   prop: "C07",
   level: "exploration",
-  rule: "well-formed generated programs with one injected back-require closing a cycle of any length over the static may-require relation (self loops included), optionally guarded by a condition on a source value so that the cycle exists only in some states or appears in a later session; x histories (top-down and bottom-up) preceded by arbitrary earlier sessions. Oracle on the task-side log: when a task requires a task that is on the execution stack, no task may start executing and the require may not return before the build aborts, and the abort must be a cyclic-dependency error; no task is entered while it is executing (depth sentinel) nor twice in one build. Non-trivial = cycle of length >=2 detected after earlier sessions executed >=3 tasks; distinct by case hash",
-  cfg: inj_cfg,
+  rule: "well-formed generated programs with one injected back-require closing a cycle of any length over the static may-require relation (self loops included), optionally guarded by a condition on a source value so that the cycle exists only in some states or appears in a later session; x histories (top-down and bottom-up, including long sessions in which resources change while the session stays open and are reported to a bottom-up build of that session) preceded by arbitrary earlier sessions. Oracle on the task-side log: when a task requires a task that is on the execution stack, no task may start executing and the require may not return before the build aborts, and the abort must be a cyclic-dependency error; no task is entered while it is executing (depth sentinel) nor twice in one build. Non-trivial = cycle of length >=2 detected after earlier sessions executed >=3 tasks; distinct by case hash",
+  cfg: c07_cfg,
   transform: identity,
   judge: c07_judge,
   opts: Opts::default,
